@@ -39,7 +39,28 @@ var verRE = regexp.MustCompile(`^[0-9]+\.[0-9]+$`)
 
 func genCmd(c *ev.Case) (string, string) {
 	r := c.Rand
-	switch r.Intn(19) {
+	switch r.Intn(20) {
+	case 18:
+		// long texts in several scripts, most of them refused: whatever is done with a refused text (quoting it in the
+		// error, shortening it) meets every mixture of one-, two-, three- and four-octet characters and every length
+		alpha := [][]string{{"a", "Z", "7", "=", " "}, {"é", "ß", "я"}, {"中", "あ", "€"}, {"😀", "𝔘"}}
+		var b strings.Builder
+		target := []int{200, 250, 255, 256, 257, 300, 512, 1024, 4000}[r.Intn(9)] + r.Intn(3) - 1
+		mix := 1 + r.Intn(15) // which widths take part
+		for b.Len() < target {
+			w := r.Intn(4)
+			if mix&(1<<uint(w)) == 0 {
+				continue
+			}
+			b.WriteString(alpha[w][r.Intn(len(alpha[w]))])
+		}
+		switch r.Intn(4) {
+		case 0:
+			return fmt.Sprintf(`{"username":%q,"hostname":"h","sshClientVersion":"8.1","ifVer":7}`, strings.ReplaceAll(b.String(), " ", "_")), "json-object"
+		case 1:
+			return "IFVer=6 SSHClientVersion=8.1 req=" + strings.ReplaceAll(strings.ReplaceAll(b.String(), " ", "_"), "=", "-"), "long-text" // no host part: refused
+		}
+		return b.String(), "long-text"
 	case 17:
 		// a current-format object whose declared interface version is low, absent or odd, with blank-separated text that
 		// looks like the older format inside its string values: the object is the message
